@@ -4,7 +4,9 @@
 //! Exit codes: 0 held, 1 VIOLATION, 2 harness error.
 
 #![allow(dead_code)]
+mod c16;
 mod c17;
+mod c18;
 mod corpus;
 mod gen;
 mod pool;
@@ -85,7 +87,7 @@ pub fn make_env(args: &Args, worker: usize) -> sim::Env {
         scratch,
         rcomp: args.verif.join(".build/repo-target/release/rcomp"),
         shim_so: args.verif.join(".build/simlibc.so"),
-        timeout_ms: 60_000,
+        timeout_ms: std::env::var("VERIF_TIMEOUT_MS").ok().and_then(|s| s.parse().ok()).unwrap_or(20_000),
     }
 }
 
@@ -207,6 +209,108 @@ fn run_c17(args: &Args) -> i32 {
     report::finish(&paths, rep, &ev)
 }
 
+fn run_c16(args: &Args) -> i32 {
+    let paths = Paths { verif: args.verif.clone(), repo: args.repo.clone() };
+    let t0 = now_s();
+    let ctx = c16::Ctx { corpus: corpus::load(&args.repo, &args.verif.join("corpus/grammars")), seed: args.seed, paths: Paths { verif: args.verif.clone(), repo: args.repo.clone() } };
+    if ctx.corpus.is_empty() {
+        eprintln!("harness error: no grammars found under {:?}", args.repo);
+        return 2;
+    }
+    let thorough = args.tier == "thorough";
+    let plan = c16::Plan {
+        thorough,
+        sampled_per_grammar: scaled(if thorough { 3000 } else { 150 }, args.scale),
+        generated: scaled(if thorough { 20_000 } else { 600 }, args.scale),
+        syscall_grammars: if thorough { usize::MAX } else { (24.0 * args.scale).ceil() as usize },
+        rcomp_every: if thorough { 200 } else { 100 },
+    };
+    let summaries = match pool::fan_out(args.workers, &|w, nw| {
+        let env = make_env(args, w);
+        let v = c16::work(&env, &ctx, w, nw, &plan);
+        cleanup(&env);
+        v
+    }) {
+        Ok(s) => s,
+        Err(e) => {
+            eprintln!("harness error: {e}");
+            return 2;
+        }
+    };
+    let mut merged = Value::Null;
+    for s in &summaries {
+        report::merge(&mut merged, s);
+    }
+    let st = &merged["stats"];
+    let mut violations: Vec<Violation> = merged["violations"].as_array().cloned().unwrap_or_default().iter().filter_map(Violation::from_json).collect();
+    violations.sort_by(|a, b| (a.index, &a.key).cmp(&(b.index, &b.key)));
+    let env = make_env(args, 999);
+    let findings = report::load_findings(&paths).unwrap_or_default();
+    let mut seen: std::collections::BTreeSet<String> = Default::default();
+    let mut minimised = vec![];
+    for mut v in violations {
+        if !seen.insert(v.key.clone()) {
+            continue;
+        }
+        let known = findings.iter().any(|f| f.property == "C16" && f.status == "known" && f.key == v.key);
+        if !known && minimised.iter().filter(|m: &&Violation| !findings.iter().any(|f| f.key == m.key)).count() < 12 {
+            if let Some(case) = c16::Case::from_json(&v.case) {
+                if c16::still_fails(&env, &ctx, &case, &v.key) {
+                    let m = c16::minimise(&env, &ctx, &case, &v.key);
+                    v.case = m.to_json();
+                } else {
+                    v.what.push_str(" [WARNING: did not reproduce on re-run]");
+                }
+            }
+        }
+        minimised.push(v);
+    }
+    cleanup(&env);
+    let wall = now_s() - t0;
+    let cases = st["cases"].as_u64().unwrap_or(0);
+    let mut samples = st["samples"].as_array().cloned().unwrap_or_default();
+    samples.sort_by_key(|s| s.to_string());
+    samples.truncate(6);
+    let coverage = json!({
+        "evaluations": cases,
+        "distinct_nontrivial": report::distinct(&st["nontrivial"]),
+        "rule": "one evaluation = one compile (forked child) of a grammar file whose stored bytes were damaged by a storage fault, or during which one syscall was made to fail by the shim. Distinct by hash of (stored bytes, settings, syscall fault); non-trivial = a fault was actually applied (fault-free baseline runs are counted in evaluations only).",
+        "samples": samples,
+        "cases_by_fault_kind": st["by_fault"],
+        "outcomes": st["outcomes"],
+        "diagnostic_classes_reached": st["err_classes"],
+        "distinct_cases": report::distinct(&st["contents"]),
+        "syscall_events_enumerated_by_call": st["syscall_events"],
+        "syscall_faults_planned": st["syscall_faults_planned"],
+        "syscall_faults_fired_by_call": st["syscall_faults_fired"],
+        "io_events_simulated": st["io_events"],
+        "panic_sites_hit": st["panic_sites"],
+        "exhaustive_subspaces": if thorough { json!(["torn (every prefix length)", "lost line / head run / tail run / interior runs of 2-4 lines", "duplicated line / run of 2-3 lines", "zero-filled tail", "every single bit flip (grammars <= 5 KB)", "every 1-3 byte run written 12 times (grammars <= 5 KB)", "single failing syscall: every I/O event x every errno legal for its call class"]) } else { json!(["torn (every prefix length)", "lost line / head run / tail run / interior runs of 2-4 lines", "duplicated line / run of 2-3 lines", "zero-filled tail", "single failing syscall on the first grammars of the corpus"]) },
+        "exhaustive": false,
+        "runs_per_hour": if wall > 0.0 { (cases as f64 / wall * 3600.0) as u64 } else { 0 },
+        "components": {
+            "real": ["rustemo-compiler built from /repo's working tree (debug assertions and overflow checks on, as in a build.rs)", "rcomp binary (release) for a sampled subset", "std fs, syn, prettyplease", "kernel tmpfs"],
+            "simulated": ["storage faults applied to the stored grammar / actions file", "failing syscalls (errno injected by the shim at a chosen I/O event)", "hash seed, clock, pid, tty (fixed reference world)"],
+        },
+    });
+    let rep = Report {
+        property: "C16".into(),
+        tier: args.tier.clone(),
+        seed: args.seed,
+        level: "fault_enumeration".into(),
+        coverage,
+        assumptions: vec![
+            "claimed for storage and syscall faults on grammar files of the corpus (plus a fault-free baseline of corpus and generated grammars), not for every conceivable text".into(),
+            "a panic is identified by (source file, text of the panicking line, normalised message)".into(),
+            "grammars above 5 KB take part in sampled batches only".into(),
+        ],
+        wall_s: wall,
+        violations: minimised,
+    };
+    let ev = args.evidence.clone().unwrap_or_else(|| args.verif.join("evidence/C16.json"));
+    report::finish(&paths, rep, &ev)
+}
+
 fn run_replay(args: &Args) -> i32 {
     let paths = Paths { verif: args.verif.clone(), repo: args.repo.clone() };
     let _ = &paths;
@@ -241,6 +345,25 @@ fn run_replay(args: &Args) -> i32 {
             }
             None => 2,
         },
+        "C16" => match c16::Case::from_json(&v["case"]) {
+            Some(case) => {
+                let ctx = c16::Ctx { corpus: vec![], seed: 0, paths: Paths { verif: args.verif.clone(), repo: args.repo.clone() } };
+                let o = c16::run_case(&env, &case);
+                match c16::judge(&ctx, &case, &o) {
+                    Some((class, key, what)) => {
+                        println!("VIOLATION property=C16 replay={}", file.display());
+                        println!("  class={class} key={key}");
+                        println!("  {what}");
+                        1
+                    }
+                    None => {
+                        println!("replay: property C16 holds on this case now (outcome {})", o.class.tag());
+                        0
+                    }
+                }
+            }
+            None => 2,
+        },
         _ => {
             eprintln!("harness error: unknown property in replay file");
             2
@@ -253,8 +376,15 @@ fn run_replay(args: &Args) -> i32 {
 fn main() {
     let args = parse_args();
     let code = match args.cmd.as_str() {
+        "c16" => run_c16(&args),
         "c17" => run_c17(&args),
         "replay" => run_replay(&args),
+        "gen-one" => {
+            let ss: u64 = args.file.as_ref().and_then(|f| f.to_string_lossy().parse().ok()).unwrap_or(0);
+            let mut rng = prng::Rng::new(ss);
+            print!("{}", gen::generate(&mut rng).text);
+            0
+        }
         "dump-gen" => {
             dump_gen(args.seed, 6);
             0
